@@ -77,6 +77,88 @@ CHECKS = {
         "checkpointed heights.",
    technique="Coq proof over regenerated table + execution of recorded blocks with real scrypt + extracted-model correspondence",
    design="6/C18"),
+ 'C08': dict(
+   text="Theorems over the model of blockstore.py (chain table, transaction_locator keyed by transaction hash, insert-or-ignore, "
+        "foreign key on the parent, all-or-nothing batches, write buffer, read): for every block tree written in any batching with "
+        "parents first and NO transaction shared between two written blocks, reading back yields exactly the written blocks with "
+        "their transaction lists in order, by height, parents before children; flush = write; the full statement (forks sharing a "
+        "pending transaction) is REFUTED for the faithful model -- the recorded finding.",
+   note="partial: round trip proved under no_shared_tx only (the property's own quantifier includes the refuted case; known "
+        "finding). SQLite is trusted; tie = real BlockStore on a scratch file, every batching for small trees, reopen after each "
+        "flush, read_chain_from_disk, plus a two-thread probe (block buffered during a flush).",
+   technique="Coq proof over relational model + refutation witness + correspondence against real SQLite store",
+   design="6/C08"),
+ 'C09': dict(
+   text="Theorems over the node model (handle_block_received with write buffer, rollback, flush, relay): between deliveries outside "
+        "bulk download, only blocks passing by-itself validation, application and in-state validation enter; accepted blocks are "
+        "stored and relayed exactly when they become head; duplicates are no-ops; a rejected block (orphan, structural defect, "
+        "apply error, rule violation) changes nothing (state, rows, buffer, pool); each block relayed at most once per run.",
+   note="Validators' verdicts are inputs of the model, computed by calling the real validators outside the handler; tie = real "
+        "handler + ChainManager + real store in simnet, mutants of every kind, duplicates, orphans, fork switches, a torn-down "
+        "bystander connection; observables after every delivery.",
+   technique="Coq proof over node state machine + simulator correspondence (real handlers, real store) per delivery",
+   design="6/C09"),
+ 'C10': dict(
+   text="partial. Proved: locator heights exactly head-k / head-k^2, descending; get-blocks server replies with consecutive active-"
+        "chain ids whose parent is genesis or an announced id on the active chain, progress on a match below the head, empty reply "
+        "at/above the head; at-most-once relay (C09/C13 theorems). Not proved: convergence under every interleaving (fairness, "
+        "timers) -- explored on 2-3 real nodes in simnet with forked histories beyond the dense locator range, multiple inventory "
+        "batches, all small topologies, seeded schedulers, then a transaction broadcast.",
+   note="Liveness/convergence is exploration, not proof; real timers, threads, TCP back-pressure are outside the model.",
+   technique="Coq proof of locator/server/relay lemmas + seeded-schedule exploration of real nodes in a simulator",
+   design="6/C10"),
+ 'C12': dict(
+   text="partial. Proved: adoption of a found block over the node model (served state, store, exactly one broadcast; head when it "
+        "extends the head; invalid found block is a no-op) and timestamp > parent. Tied, not proved: every assembled block with id "
+        "below target passes the node's own full validation and pays exactly subsidy + fees (real MinerWatcher handlers + real "
+        "validators + extracted construct_block_for_mining on pools with 0-3 transactions and clocks before/at/after the head).",
+   note="The general assembly-validity theorem is not proved (stated in DESIGN.md); known finding: clock more than 29 s behind the "
+        "head's timestamp.",
+   technique="Coq proof (adoption) + differential check of block assembly against extracted model and the node's own validation",
+   design="6/C12"),
+ 'C13': dict(
+   text="Theorems over the node model: PoolInv (every pending tx valid at the head, pairwise no shared output, no duplicate) is "
+        "preserved by every step for every interleaving of submissions and head changes incl. reorganisations; admission requires "
+        "by-itself validity, validity at head and no conflict; after a head change the pool is exactly the still-valid sub-list.",
+   note="tx validity at a head and conflicts are oracle inputs computed with the real validators; tie = real ChainManager and "
+        "handlers in simnet under random interleavings incl. fork switches; independent validity oracle after every event.",
+   technique="Coq invariant proof over node state machine + simulator correspondence with independent pool oracle",
+   design="6/C13"),
+ 'C14': dict(
+   text="Theorems over the selection model of create_spend_transaction: exact amount, exact change iff non-zero, inputs distinct / "
+        "owned / unused, greedy minimal prefix; failure iff unused holdings < amount + fee and then nothing changes; no reference "
+        "selected twice across any sequence; the pre-fix behaviour refuted. Validity of the signed transaction is tied by the "
+        "node's own validation in the check (needs verify(sign) = true).",
+   note="partial: consensus validity of the returned transaction is checked, not proved; known finding: more inputs than fit in "
+        "one transaction.",
+   technique="Coq proof over selection model + differential check against real wallet code and the node's transaction validation",
+   design="6/C14"),
+ 'C15': dict(
+   text="Theorems: key partition invariant, no key handed out twice unless restored (every op sequence), atomic replacement for "
+        "every chunking and every crash prefix (in-place variant refuted); the exhausted-wallet restore refuted (recorded finding).",
+   note="JSON dump/load is compared, not modelled; crash = process crash (unflushed buffers lost), rename atomicity assumed. Tie: "
+        "real Wallet ops vs extracted model; save_wallet traced with on-disk state captured at every write/close/rename step.",
+   technique="Coq proof over wallet/key/file models + exhaustive crash-point enumeration of traced real saves",
+   design="6/C15"),
+ 'C19': dict(
+   text="Theorems over the peer-book model: no key both connected and disconnected after any event sequence; attempt only after "
+        "min(first*2^k, max) since the previous one and never beyond the failure limit (decision-level and trace-level); own "
+        "address detected, dropped, never retried; peers file <= cap, newest first, no duplicate; shipped constants 10/1800/2880 "
+        "from the regenerated parameters.",
+   note="Trace-level back-off assumes an already-disconnected outgoing object is not disconnected again (the real disconnect "
+        "fails at selector.unregister first); the unguarded model counter-example is kept. Tie: real managers in simnet over 5 "
+        "addresses incl. duplicate keys, self-connection, refused connections; peers.json inspected.",
+   technique="Coq invariant proofs over peer-book model + simulator correspondence of the real NetworkManager",
+   design="6/C19"),
+ 'C20': dict(
+   text="partial. Theorems over the dispatch model: for every byte string read from a peer the shared state afterwards is exactly "
+        "the result of the successfully handled frames; every invariant preserved by the handlers' success path survives arbitrary "
+        "input; a malformed first frame changes nothing and closes only that connection.",
+   note="Which Python/stdlib/ecdsa/sqlite operations raise, and that all of it is caught, is observed by bulk adversarial input "
+        "(corrupted/truncated/spliced traffic, unknown types, protocol order, invalid objects, random bytes) with bystanders, not "
+        "proved.",
+   technique="Coq proof over dispatch model + bulk adversarial sessions against a real node with bystander peers",
+   design="6/C20"),
  'C07': dict(
    text="Theorems over the Gallina codec model (VLQ, lists, 10 consensus types): round trip for every well-formed value with any "
         "trailing bytes, canonicity for EVERY byte string (decoding succeeds => re-encoding ++ rest = input), decoded values are "
